@@ -2907,8 +2907,12 @@ def check_C16(tier: str, seed: int) -> int:
         if not ok:
             direct_fail.append({"what": "asefile::AsepriteFile is not Send + Sync (the assertion binary does not compile)", "rustc": err})
         items: List[Tuple[str, str]] = []
-        for s, data in small_sprites(rng, 60 if tier == "quick" else 600, max_canvas=8, max_layers=5, max_frames=3):
+        for i, (s, data) in enumerate(small_sprites(rng, 60 if tier == "quick" else 600, max_canvas=8, max_layers=5, max_frames=3)):
             items.append((w.put(data), "generated"))
+            if i % 3 == 0:
+                # the same sprite under other names (palette entries, layers, tags, ...): alive at the same time as its original in the
+                # threads pass and right after it in the sequence passes
+                items.append((w.put(gen.encode(name_twin_of(s, rng), None, rng)), "generated, names changed"))
         for s, data in extreme_canvas_sprites(rng, 12 if tier == "quick" else 100):
             items.append((w.put(data), "tilemap sprite with canvas %dx%d" % (s["width"], s["height"])))
         for desc, data in many_layer_files(rng) + big_tileset_files(rng):
@@ -3104,6 +3108,22 @@ def c12_inputs(rng: random.Random, tier: str) -> List[Tuple[str, bytes]]:
     # two declared fields inflated together (frame size + chunk count, chunk size + frame size, width + height, count + size)
     for name, data in bases:
         fs = [f for f in ase.mutable_fields(data) if f.kind in ("size", "count", "dim", "length")]
+        # systematically: every pair of such fields of ONE chunk (tile count + compressed length, width + height, count + name length, ...)
+        groups: Dict[str, list] = {}
+        for f in fs:
+            groups.setdefault(f.name.rsplit(".", 1)[0], []).append(f)
+        for g, gf in groups.items():
+            for ia in range(len(gf)):
+                for ib_ in range(ia + 1, len(gf)):
+                    for va, vb in ((None, None), (1 << 24, None), (None, 1 << 24)):
+                        mut = data
+                        desc = []
+                        for f, vv in ((gf[ia], va), (gf[ib_], vb)):
+                            top = (1 << (8 * f.width)) - 1
+                            vv = min(top, vv) if vv is not None else top
+                            mut = ase.set_field(mut, f, vv)
+                            desc.append("%s@%d->%d" % (f.name, f.offset, vv))
+                        out.append(("%s:chunk pair %s" % (name, " + ".join(desc)), mut))
         for _ in range(25 if tier == "quick" else 200):
             if len(fs) < 2:
                 break
@@ -3224,6 +3244,16 @@ def check_C12(tier: str, seed: int) -> int:
             elif io == 0 and up > limit:
                 corr_fail.append({"input": paths[i], "desc": desc, "diff": "alloc_upper %d exceeds the bound %d on an input that loads (C12_bound_loaded says it cannot; "
                                                                           "parameters %s)" % (up, limit, par)})
+            # the same input through AsepriteFile::read_file (the path-based entry point): same outcome, same bound
+            l41 = next((l for l in b[0] if l[0] == 41), None)
+            if l41 is None or l41[1] == 9:
+                direct_fail.append({"what": "read_file aborted / panicked", "input": desc, "comments": b[1][:3], "_data": data if len(data) < 5000000 else None})
+            elif outcome_class(l41[1]) != outcome_class(io):
+                direct_fail.append({"what": "read_file and read(&bytes) disagree: outcome %d vs %d" % (l41[1], io), "input": desc,
+                                    "_data": data if len(data) < 5000000 else None})
+            elif l41[3] > limit or l41[4] > limit:
+                direct_fail.append({"what": "read_file: live heap %d B (largest request %d B) exceeds 64 MiB + 8192 B per input byte = %d B" % (l41[3], l41[4], limit),
+                                    "input": desc, "input_len": n, "_data": data if len(data) < 5000000 else None})
             if peak > limit or largest > limit:
                 direct_fail.append({"what": "live heap %d B (largest request %d B) exceeds 64 MiB + 8192 B per input byte = %d B" % (peak, largest, limit),
                                     "input": desc, "input_len": n, "_data": data if len(data) < 5000000 else None})
